@@ -57,6 +57,8 @@ pub enum InternError {
     AlreadyCanonical,
     #[error("given canonical is already registered as an alias")]
     AlreadyAlias,
+    #[error("given alias is already registered as an alias of another canonical")]
+    AliasConflict,
 }
 
 /// Manage interned `&str` in the arena allocator.
@@ -125,7 +127,14 @@ impl<'arena, T: FromInterned<'arena>> InternStore<'arena, T> {
     pub fn insert_alias(&mut self, value: &str, canonical: T) -> Result<(), InternError> {
         match self.get(value) {
             Some(StoredValue::Canonical(_)) => Err(InternError::AlreadyCanonical),
-            Some(StoredValue::Alias { .. }) => Ok(()),
+            // the same alias can be declared again only for the same canonical.
+            Some(StoredValue::Alias { canonical: found, .. }) => {
+                if found.as_interned() == canonical.as_interned() {
+                    Ok(())
+                } else {
+                    Err(InternError::AliasConflict)
+                }
+            }
             None => {
                 self.insert_alias_impl(value, canonical.as_interned());
                 Ok(())
